@@ -274,7 +274,11 @@ theorem C09_json_two_pow_64_is_rejected (m k : Nat) (h : m * 2 ^ k = U64MAX + 1)
 0 ≤ v < 2^64, and the result is v truncated toward zero: exactly v when v is integral, so no
 accepted counter exceeds 2^64-1 and none is altered by saturation; a negative float other than
 −0.0 is rejected. The largest f64 below 2^64, (2^53-1)·2^11 = 18446744073709549568 (written
-1.844674407370955e19), is accepted as itself (example below). -/
+1.844674407370955e19 or 18446744073709549568.0), is accepted as itself (example below). Which f64
+a LITERAL denotes is serde_json's business (trusted layer, outside the model): its default float
+reader is not correctly rounded, and the 17-digit spelling 1.8446744073709550e19 of the same
+decimal is read as 2^64 – hence rejected (harness witness
+`literal_1.8446744073709550e19_reads_as_2^64`). -/
 theorem C09_json_float_counter_accepted_iff_below_two_pow_64 :
     (∀ m k n, Json.asCounter (.num (.flt false m (.ofNat k))) = some n
         ↔ m * 2 ^ k ≤ U64MAX ∧ n = m * 2 ^ k)
